@@ -169,3 +169,5 @@ def run(chk):
     _run_inner(chk)
     from . import padding
     padding.rule_sha_padding(chk, cf.PROGRAM[0] or cf.Program())
+    from . import aead
+    aead.rule_mac_source(chk, cf.PROGRAM[0] or cf.Program(), 'A1', floor=16)
